@@ -12,6 +12,7 @@
                 && ev_of(res.unwrap()) == num_event(old(self).read.data(), old(self).read.idx() - 1),
             number_end_l(old(self).read.data(), old(self).read.idx() - 1).is_none() ==> res.is_err(),
             final(self).read.idx() >= old(self).read.idx(),
+            res.is_err() ==> err_ok(res->Err_0, old(self).read.data()),
     { unimplemented!() }
 
 //@extract file=src/parser.rs impl="Parser<R>" fn=parse_literal_visit
@@ -30,6 +31,8 @@
                 &&& (want.is_none() ==> res.is_err())
             }),
             final(self).read.idx() >= old(self).read.idx(),
+            // every error is made by Parser::error: positioned inside the input (C20)
+            res.is_err() ==> err_ok(res->Err_0, old(self).read.data()),
 //@before /let literal = match first \{/
         proof { axiom_lits(); }
 //@end
